@@ -47,10 +47,11 @@ inductive HReq
   | op (o : NamesHist.Op Float)
 
 /-- wire: `U:<string>` `K:<symbol>` `A:<scale bits>:<0|1 prefixable>:<default key whose dimension is used>:<symbol>`
-    `R:<symbol>` `M:<scale bits>:<symbol>` `J` -/
+    `R:<symbol>` `M:<scale bits>:<symbol>` `J` (save/load) `C` (deep copy) -/
 def parseHReq (f : String) : Option HReq :=
   match f.splitOn ":" with
   | ["J"] => some (.op .reload)
+  | ["C"] => some (.op .copy)
   | "U" :: rest => some (.unit (Name.ofString (":".intercalate rest)))
   | "K" :: rest => some (.op (.look (Name.ofString (":".intercalate rest))))
   | "R" :: rest => some (.op (.remove (Name.ofString (":".intercalate rest))))
